@@ -9,7 +9,7 @@ import subprocess
 import tempfile
 import time
 
-SPEC_DIR = "/verif/spec"
+SPEC_DIR = os.path.join(os.path.dirname(os.path.dirname(os.path.abspath(__file__))), "spec")
 JAR = "/opt/veriftools/tla/tla2tools.jar:/opt/veriftools/tla/CommunityModules-deps.jar"
 
 
